@@ -640,7 +640,38 @@ def purity(ctx, world):
                         ctx.fail("A9.pure", inst + ":fresh", f"{inst}:returns-operand", loc_of(mod, st), f"{inst} returns one of its operands (or a view of it) on some path instead of a newly allocated sum: `{str(bad_[0].leaf)[:60]}`", "a value with three contributions the second of which is zero (an inactive branch): the first contribution's buffer, not owned by autograd, is then accumulated into in place")
                     else:
                         ctx.ob("A9.pure", inst + ":fresh", True, loc_of(mod, st))
-            elif st.name == "_mut_add":
+            if st.name in ("_add", "_mut_add", "_scalar_mul", "_inner_prod", "_covector") and len(st.args.args) >= 2:
+                # the operations act in the precision of the space: no operand is converted to a FIXED dtype
+                # (np.float64 / np.complex128 ...): a longdouble / clongdouble space would silently lose range and digits
+                from ..tutil import expand as _expand2, unseq as _unseq2
+                from ..terms import walk as _walk2
+
+                try:
+                    r2_, sy2_, m2_, fn2_, sc2_ = eval_function(world, mod.name, f"{cls.name}.{st.name}")
+                except Exception:
+                    r2_ = None
+                if r2_ is not None:
+                    fixed = None
+                    for t_ in _walk2(_unseq2(_expand2(world.ev, r2_, ()))):
+                        if t_.op != "call":
+                            continue
+                        cands = [t_.kw["dtype"]] if "dtype" in t_.kw else []
+                        nm2 = t_.fn.name if t_.fn.op == "attr" else (t_.fn.ref.qual.rsplit(".", 1)[-1] if t_.fn.op == "ref" else "")
+                        if nm2 == "astype" and t_.args:
+                            cands.append(t_.args[0])
+                        if nm2 in ("asarray", "array", "asanyarray") and len(t_.args) > 1:
+                            cands.append(t_.args[1])
+                        for c_ in cands:
+                            if c_.op == "ref" and (c_.ref.qual.startswith("numpy.") or c_.ref.qual in ("builtins.float", "builtins.complex", "builtins.int")) and fixed is None:
+                                fixed = (t_, c_.ref.qual)
+                            if c_.op == "const" and isinstance(c_.value, str) and fixed is None:
+                                fixed = (t_, repr(c_.value))
+                    n += 1
+                    if fixed is None:
+                        ctx.ob("A9.pure", inst + ":precision", True, loc_of(mod, st))
+                    else:
+                        ctx.fail("A9.pure", inst + ":precision", f"{inst}:fixed-dtype", loc_of(mod, st), f"{inst} converts an operand to the fixed dtype {fixed[1]} (`{str(fixed[0])[:60]}`): values of a wider space (np.longdouble / np.clongdouble) are silently truncated", "a longdouble vector with entries outside the float64 range (1e-200L squared underflows to 0: <x, x> = 0 for x != 0)")
+            if st.name == "_mut_add":
                 n += 1
                 first = st.args.args[1].arg if len(st.args.args) > 1 else None
                 other = [x for x in muts if _mut_target(x) != first]
